@@ -21,7 +21,51 @@ def sh(cmd, **kw):
     return p.returncode, p.stdout
 
 
+def rerun_dir(d):
+    """re-confirm and re-run the checks for a stored seeded change: seeded/<ID>-<k>/"""
+    meta = json.load(open(os.path.join(d, 'meta.json')))
+    prop = meta['breaks']
+    checks = sorted(set([prop] + list(meta.get('caught_by') or []) + [c for c in os.environ.get('SEED_CHECKS', '').split(',') if c]))
+    wt = tempfile.mkdtemp(prefix='seed_re_')
+    os.rmdir(wt)
+    sh('git -C /repo worktree add -q --detach %s HEAD' % wt)
+    try:
+        rc, out = sh('git -C %s apply %s' % (wt, os.path.join(d, 'patch.diff')))
+        if rc:
+            rc, out = sh('git -C %s apply --3way %s' % (wt, os.path.join(d, 'patch.diff')))
+        if rc:
+            print(os.path.basename(d), 'DOES NOT APPLY to HEAD any more')
+            meta['applies_to_head'] = False
+            json.dump(meta, open(os.path.join(d, 'meta.json'), 'w'), indent=1)
+            return
+        rc, out = sh('cd %s && timeout 900 /venv/bin/python -m pytest -q -p no:cacheprovider --timeout=900 2>&1 | tail -1' % wt)
+        tests = '175 passed' in out
+        demo = os.path.join(d, 'demo.py')
+        rc1, _ = sh('cd %s && PYTHONPATH=%s timeout 300 /venv/bin/python %s %s' % (wt, wt, demo, wt))
+        rc0, _ = sh('cd /repo && PYTHONPATH=/repo timeout 300 /venv/bin/python %s /repo' % demo)
+        res = {}
+        for c in checks:
+            rcc, outc = sh('cd %s && SUPP_REPO=%s timeout 1800 ./check %s 2>&1' % (VERIF, wt, c))
+            res[c] = len([l for l in outc.split('\n') if l.startswith('VIOLATION')])
+            sh('rm -f %s/replays/%s_*.json' % (VERIF, c))
+        head = sh('git -C /repo rev-parse --short HEAD')[1].strip()
+        meta['applies_to_head'] = True
+        meta['caught_by'] = [c for c, n in res.items() if n > 0]
+        meta['ran'] = ['on /repo HEAD %s + patch: pytest %s' % (head, 'passes (175)' if tests else 'FAILS'),
+                       'demo.py on mutated tree: exit %d; on clean tree: exit %d' % (rc1, rc0)] + \
+                      ['SUPP_REPO=<mutated> ./check %s -> %d VIOLATION lines' % (c, n) for c, n in res.items()]
+        json.dump(meta, open(os.path.join(d, 'meta.json'), 'w'), indent=1)
+        print('%s tests=%s demo=%d/%d %s' % (os.path.basename(d), tests, rc1, rc0, res))
+    finally:
+        sh('git -C /repo worktree remove --force %s' % wt)
+        shutil.rmtree(wt, ignore_errors=True)
+
+
 def main():
+    if sys.argv[1] == '--dir':
+        for d in sys.argv[2:]:
+            rerun_dir(d.rstrip('/'))
+        return
     prop, outdir = sys.argv[1], sys.argv[2]
     ks = sys.argv[3:] or ['1', '2', '3']
     checks = os.environ.get('SEED_CHECKS', prop).split(',')
